@@ -14,7 +14,7 @@ from typing import Dict, List, Optional, Tuple
 from ..catalogue import Catalogue
 from ..model import Func, Program, norm
 from ..report import Collector
-from ..specval import FINITE, LOGDOM, NAN, NEG, NINF, POS, ZERO, V, Interp, num
+from ..specval import FINITE, FMIN, LOGDOM, NAN, NEG, NINF, POS, ZERO, V, Interp, num
 from .common import Refs
 
 BACKENDS = ("funsor.ops.array", "funsor.torch.ops", "funsor.jax.ops")
@@ -131,8 +131,17 @@ def run(prog: Program, col: Collector, refs: Refs, cat: Catalogue, rule_log: str
                     ok = _judge(col, f, tag, scen, res, it, forbid={NINF}) and ok
                 if not ok:
                     break
+            # the float range boundary: with an operand equal to the most negative finite float the limit is that float, never -inf / NaN
             if ok:
-                col.ok(f"{f.fq}::{tag}", f"{how}: 16 input class pairs, no NaN, -inf only for (-inf, -inf)", f.loc())
+                for cx, cy in ((FMIN, FMIN), (FMIN, NINF), (NINF, FMIN), (FMIN, ZERO), (ZERO, FMIN)):
+                    args = [num({cx}, kinds[0]), num({cy}, kinds[1])]
+                    res, it = _run(prog, refs, cat, f, args, backend)
+                    n_scen += 1
+                    ok = _judge(col, f, tag, f"{opname}({args[0]!r}, {args[1]!r})", res, it, forbid={NINF}) and ok
+                    if not ok:
+                        break
+            if ok:
+                col.ok(f"{f.fq}::{tag}", f"{how}: 16 input class pairs + 5 at the most negative float, no NaN, -inf only for (-inf, -inf)", f.loc())
     op, targets = _targets(prog, cat, "logsumexp")
     subsets = [frozenset(s) for k in range(1, 5) for s in itertools.combinations(sorted(LOGDOM), k)]
     for f, kinds, backend, how in targets:
@@ -151,7 +160,21 @@ def run(prog: Program, col: Collector, refs: Refs, cat: Catalogue, rule_log: str
             if not ok:
                 break
         if ok:
-            col.ok(f"{f.fq}::logsumexp at -inf", f"{how}: {len(subsets)} element-class sets, no NaN, all -inf gives -inf", f.loc())
+            # the float range boundary: every element is the most negative finite float (or that float and -inf): the limit is finite
+            # (mixed finite sets are not asserted: the domain does not record that some element attains the maximum)
+            for s in (frozenset({FMIN}), frozenset({FMIN, NINF})):
+                args = [num(s, True), V("none"), V("bool", {False})]
+                res, it = _run(prog, refs, cat, f, args[:max(1, len(f.positional))], backend)
+                n_scen += 1
+                scen = f"logsumexp(array{_fmt(s)})"
+                if NINF in s:
+                    ok = _judge(col, f, "logsumexp at -inf", scen, res, it) and ok
+                else:
+                    ok = _judge(col, f, "logsumexp at -inf", scen, res, it, forbid={NINF}) and ok
+                if not ok:
+                    break
+        if ok:
+            col.ok(f"{f.fq}::logsumexp at -inf", f"{how}: {len(subsets)} element-class sets + 2 at the most negative float, no NaN, all -inf gives -inf, finite elements never give -inf", f.loc())
     # log-space einsum kernels: functions named einsum in funsor.einsum.* that exponentiate (exp) their operands
     for fq, f in sorted(prog.funcs.items()):
         if not (f.module.name.startswith("funsor.einsum.") and f.name == "einsum" and f.cls is None):
